@@ -170,15 +170,26 @@ def merit_case(cid: str, rng: random.Random) -> dict:
     if pow2:
         _sc, dd = diff_from_ode(ode, sd)
         for i in range(m - 1):
-            diffs.append([{"n": small(Fraction(float(dd[i][k])).numerator),
-                           "d": small(Fraction(float(dd[i][k])).denominator)} for k in range(sd)])
+            row = []
+            for k in range(sd):
+                q = Fraction(float(dd[i][k]))
+                ok = abs(q.numerator) < 2 ** 31 - 1 and q.denominator < 2 ** 31 - 1
+                row.append({"n": q.numerator if ok else 1, "d": q.denominator if ok else 0})
+            diffs.append(row)
     else:
         for i in range(m - 1):
             # exact rational finite difference computed here is NOT used as an oracle: give TLC the identity
             diffs.append([{"n": small(8 * (rows[i + 1][k] - rows[i][k])), "d": small(incs[i])} for k in range(sd)])
+    def fit(fr: Fraction) -> tuple:
+        # the documented value is a small fraction; a value that does not even fit TLC's integers is certainly
+        # not it: hand over a sentinel that cannot satisfy the identity
+        if abs(fr.numerator) >= 2 ** 31 - 1 or fr.denominator >= 2 ** 31 - 1:
+            return 1, 0
+        return fr.numerator, fr.denominator
+    jn, jd = fit(fj)
+    tn, td = fit(ft)
     return {"id": cid, "kind": "merit", "sd": sd, "use": sd if use <= 0 else use, "g4": g4, "times8": times8,
-            "rows": rows, "jn": small(fj.numerator), "jd": small(fj.denominator), "tn": small(ft.numerator),
-            "td": small(ft.denominator), "diffs": diffs, "diffs_from_code": 1 if pow2 else 0}
+            "rows": rows, "jn": jn, "jd": jd, "tn": tn, "td": td, "diffs": diffs, "diffs_from_code": 1 if pow2 else 0}
 
 
 def run(prop: str, tier: str, seed: int) -> int:
